@@ -50,7 +50,7 @@ class Vocab:
 
 def operand_sets(V):
     tr = V.triples
-    return {"H1": [tr[0], tr[3]], "H2": [tr[1], tr[-1]], "H3": list(tr[:5])}
+    return {"H0": [], "H1": [tr[0], tr[3]], "H2": [tr[1], tr[-1]], "H3": list(tr[:5])}
 
 
 class State:
@@ -183,6 +183,8 @@ class Spec:
                     return [("binop|left-operand-changed", {"op": op})]
                 if {tuple(tkey(x) for x in t) for t in H} != {V.tkeys[t] for t in hs}:
                     return [("binop|right-operand-changed", {"op": op})]
+                # the operands stay around: whatever is done to the result later, they remain what they were (checked in every later state)
+                S.left, S.left_m, S.right, S.right_m = S.g, frozenset(before), H, frozenset(hs)
                 S.g = r
                 S.store = r.store
                 S.sib = None if S.sib is None else S.sib
@@ -244,6 +246,10 @@ class Spec:
 
     def check(self, S):
         v = self._sweep(S.g, S.m, "", S.last)
+        if getattr(S, "left", None) is not None:
+            for side, g, m in (("left", S.left, S.left_m), ("right", S.right, S.right_m)):
+                if {tuple(tkey(x) for x in t) for t in g} != {self.V.tkeys[t] for t in m}:
+                    v.append(("binop|%s-operand-changed-later|after-%s" % (side, S.last), {"expected": sorted(m), "got": sorted(map(repr, g))[:6]}))
         if S.sib is not None and S.sib.store is S.g.store:
             v += self._sweep(S.sib, S.sm, "sibling-", S.last)
         return v
@@ -251,7 +257,8 @@ class Spec:
     def key(self, S):
         sib_live = S.sib is not None and S.sib.store is S.g.store
         return (tuple(sorted(S.m)), tuple(sorted(S.sm)) if sib_live else None,
-                type(S.g.store).__name__, canon(vars(S.g.store)), canon(vars(S.g)))
+                type(S.g.store).__name__, canon(vars(S.g.store)), canon(vars(S.g)),
+                tuple(sorted(S.left_m)) if getattr(S, "left", None) is not None else None)
 
     def model_key(self, S):
         return (tuple(sorted(S.m)), tuple(sorted(S.sm)))
@@ -380,7 +387,9 @@ def run(ctx):
     else:
         configs = [dict(store="Memory", lit="Lempty", binops=True, expand_binops=False),
                    dict(store="Memory", lit="Lx_en", sibling=True, binops=False, subjects=["A"]),
-                   dict(store="SimpleMemory", lit="L0", binops=True, expand_binops=False)]
+                   dict(store="SimpleMemory", lit="L0", binops=True, expand_binops=False),
+                   # binary operations followed by further operations on their result (the operands must stay what they were): on one subject
+                   dict(store="Memory", lit="L0", binops=True, expand_binops=True, subjects=["A"])]
     for cfg in configs:
         spec = Spec(**cfg)
         explore.bfs(spec, ctx, max_depth=40, batch=4, time_cap=(240 if thorough else None))
